@@ -18,13 +18,18 @@ import common
 from common import Broken, Violation
 
 MANIFEST = {
-    "text": "19 theorems (Props/C15.v) over all instants of years 1..9999 (Z microseconds), the three precisions and two "
+    "text": "23 theorems (Props/C15.v) over all instants of years 1..9999 (Z microseconds), the three precisions and two "
             "constraints, about a hand-written Gallina model of format_datetime/parse_into_datetime/strptime: canonical shape "
             "with 4-digit year (full for the zero-padding variant, refuted with year 999 for the unpadded strftime variant), the "
             "text read by an independent strict reader denotes exactly floor(t) to the precision unit (never rounds), digit-count "
             "rules, injectivity, the library's own reader reads the text back as floor(t), write-read-write fixed point, "
             "monotonicity of the denoted instants, datetime/date/string inputs are written as the text of their UTC instant "
-            "(whole-second offsets; both naive-datetime variants), and the civil-calendar round trip for every day number in Z. "
+            "(whole-second offsets; both naive-datetime variants), a value cleaned at one precision and written at another is "
+            "still a floor of its instant (write_as_aware, write_as_denotes, reparse_string), the civil-calendar round trip for "
+            "every day number in Z, and agreement of the day number with an independent closed form (Fliegel-Van Flandern Julian "
+            "Day Number) on every date of years 1..9999 (calendar_is_gregorian; the strict reader of the spec shares the calendar "
+            "with the model, so this and the anchor Examples are what ties it to the real Gregorian calendar). floor_is_truncation "
+            "and floor_monotone are spec-side facts about floor_to; the model-level order statement is fmt_order. "
             "5 source-text obligations (Props/C15Src.v): the precision branches of format_datetime and the truncation branches of "
             "parse_into_datetime, translated from the ast on every run into programs of a small interpreted language "
             "(Model/PyTs.v), are the programs the model mirrors and compute frac_digits / stored_trunc for every input.",
